@@ -52,3 +52,10 @@ Definition tr_get_between_read_and_put : list label :=
   [LCall 0%N (CSchedule 1%N 2%N); LStep A0; LStep A0; LStep A0;
    LCall 0%N CStart; LStep A0; LOrd A0 [0%nat]; LStep A0; LStep A0; LStep A0; LStep A0; LStep A0; LStep A0;
    LECheck 0%nat; LEPut 0%nat 7%N; LECheck 0%nat; LStep TD; LStep TD].
+
+(* schedule, then unschedule before the observer was started (the emitter thread never ran: join "ok = false"),
+   then start(): the removed emitter is not started, it stays ENew and can take no step. *)
+Definition tr_unschedule_unstarted : list label :=
+  [LCall 0%N (CSchedule 1%N 2%N); LStep A0; LStep A0; LStep A0;
+   LCall 0%N (CUnschedule 2%N); LStep A0; LStep A0; LStep A0; LStep A0; LStep A0;
+   LCall 0%N CStart; LStep A0; LOrd A0 []; LStep A0; LStep A0; LStep A0].
